@@ -1,4 +1,43 @@
-(* C04 — property theorems (under construction) *)
-From Coq Require Import List ZArith.
-From AV Require Import Engine.Core Engine.Sem Engine.Eval Engine.Validate Engine.Strat.
+(* C04 — negation and aggregation see the complete relation, each tuple once.
+   Property theorems only; proofs in Engine/{EvalSpecAgg,AggLemmas,StrataAgg,SemiNaiveAgg,StratFixedLemmas,MainAgg}.v.
+   Negation !r(args) is the aggregate `agg () = not() in r(args)` (Engine/Core.v BAgg with out = None). *)
+From Coq Require Import List ZArith Bool Permutation.
+From AV Require Import Engine.Core Engine.Sem Engine.Eval Engine.Validate Engine.Naive Engine.Interface Engine.InterfaceAgg.
+From AV Require Import Engine.Strat Engine.StratFixed Engine.StratFixedLemmas Engine.SemiNaiveAgg Engine.StratRefuted Engine.MainAgg Engine.Vocab.
 Import ListNotations.
+
+(* For every interpretation whose aggregators depend only on the multiset of their input, every plan accepted by the
+   validator and every duplicate-free input: the rules are grouped into strata that respect the dependencies
+   (aggregated relations are produced strictly earlier), and the rows after run() are the STRATIFIED MODEL: stratum
+   after stratum, the least set closed under the stratum's rules that extends the completed lower strata and leaves
+   the relations it aggregates untouched — where an aggregate ranges over the DISTINCT matching tuples of the whole
+   relation (Sem.all_envs: dedup_tuples (filter ...)) and the rule continues once per value the aggregator returns. *)
+Theorem c04_stratified_model : forall (I : interp) (swap : list tuple -> list tuple -> bool) arities P pl fuel F0 st,
+  arities_functional arities -> wf_facts arities F0 = true -> NoDup F0 -> agg_perm_invariant I ->
+  validate arities P pl = true ->
+  run_plan I swap fuel pl (init_state F0) = Some st ->
+  stratified (plan_strata P pl) = true
+  /\ (forall r, In r P <-> In r (concat (plan_strata P pl)))
+  /\ strat_model_fixed I (plan_strata P pl) F0 (rows st)
+  /\ NoDup (rows st)
+  /\ exists added, rows st = F0 ++ added.
+Proof. exact run_plan_strat_correct_full. Qed.
+
+(* the stratified model is unique (as a set), and without aggregates it is the least model of C01 *)
+Theorem c04_stratified_model_unique : forall I strata F F' M M',
+  (forall f, In f F <-> In f F') -> strat_model_fixed I strata F M -> strat_model_fixed I strata F' M' -> forall f, In f M <-> In f M'.
+Proof. exact strat_model_fixed_unique. Qed.
+Theorem c04_no_agg_is_least_model : forall I s F M, no_agg s = true -> (least_model_fixed I s F M <-> least_model I s F M).
+Proof. exact least_model_fixed_no_agg. Qed.
+
+(* the library aggregators of the vocabulary meet the hypothesis (C17) *)
+Theorem c04_shipped_aggregators_perm_invariant : agg_perm_invariant std_interp.
+Proof. exact std_interp_agg_perm_invariant. Qed.
+
+(* why the lower strata must be held fixed: without that clause no model exists at all for an aggregating stratum
+   (first formulation of this property, refuted with a computed witness) *)
+Theorem c04_unconstrained_least_model_refuted : exists I swap, ~ run_plan_strat_correct_stmt I swap.
+Proof. exact run_plan_strat_correct_stmt_refuted. Qed.
+
+Print Assumptions c04_stratified_model. Print Assumptions c04_stratified_model_unique. Print Assumptions c04_no_agg_is_least_model.
+Print Assumptions c04_shipped_aggregators_perm_invariant. Print Assumptions c04_unconstrained_least_model_refuted.
